@@ -99,14 +99,16 @@ namespace
   /// fp(fine, coarse) = prol, fr(fine, coarse) = rest, ft(fine, coarse) = trunc on local vectors of the object's types.
   template<typename MT_, typename FP_, typename FR_, typename FT_>
   void check_derived(verif::Ctx& c, const std::string& key, const std::string& oname, const MT_& mp, const MT_& mr, const MT_& mt,
-    FP_&& fp, FR_&& fr, FT_&& ft, const Csr& P, const Csr& R, const Csr& T, bool have_values)
+    FP_&& fp, FR_&& fr, FT_&& ft, const Csr& P, const Csr& R, const Csr& T, int level)
   {
     typedef typename MT_::DataType DT;
     typedef typename MT_::IndexType IT;
     typedef LAFEM::DenseVector<DT, IT> VT;
     const Index nf = P.m, nc = P.n;
+    const bool have_values = (level >= 2);
     auto same = [&](const MT_& x, const Csr& S) {
       if(x.rows() != S.m || x.columns() != S.n || size_t(x.used_elements()) != S.nnz()) return false;
+      if(level < 1) return true; // CloneMode::Allocate: only the sizes are defined
       const Csr X(x);
       if(X.rp != S.rp || X.ci != S.ci) return false;
       if(have_values) for(size_t k = 0; k < S.va.size(); ++k) if(!(X.va[k] == double(DT(S.va[k])))) return false;
@@ -140,16 +142,16 @@ namespace
   }
 
   template<typename TR_>
-  void check_local(verif::Ctx& c, const std::string& key, const std::string& oname, const TR_& x, const Csr& P, const Csr& R, const Csr& T, bool have_values = true)
+  void check_local(verif::Ctx& c, const std::string& key, const std::string& oname, const TR_& x, const Csr& P, const Csr& R, const Csr& T, int level = 2)
   {
     typedef typename TR_::VectorType VT;
     c.check(!x.is_ghost(), "derived transfer object: is_ghost; " + oname + "; " + key, "local transfer claims to be a ghost operator");
     check_derived(c, key, oname, x.get_mat_prol(), x.get_mat_rest(), x.get_mat_trunc(),
-      [&](VT& f, const VT& cc) { x.prol(f, cc); }, [&](const VT& f, VT& cc) { x.rest(f, cc); }, [&](const VT& f, VT& cc) { x.trunc(f, cc); }, P, R, T, have_values);
+      [&](VT& f, const VT& cc) { x.prol(f, cc); }, [&](const VT& f, VT& cc) { x.rest(f, cc); }, [&](const VT& f, VT& cc) { x.trunc(f, cc); }, P, R, T, level);
   }
 
   template<typename GT_>
-  void check_global(verif::Ctx& c, const std::string& key, const std::string& oname, const GT_& x, const Csr& P, const Csr& R, const Csr& T, bool have_values = true)
+  void check_global(verif::Ctx& c, const std::string& key, const std::string& oname, const GT_& x, const Csr& P, const Csr& R, const Csr& T, int level = 2)
   {
     typedef typename GT_::VectorType GV;
     typedef typename GT_::LocalVectorType VT;
@@ -158,7 +160,7 @@ namespace
     check_derived(c, key, oname, l.get_mat_prol(), l.get_mat_rest(), l.get_mat_trunc(),
       [&](VT& f, const VT& cc) { GV gf(nullptr, f.clone(LAFEM::CloneMode::Shallow)), gc(nullptr, cc.clone(LAFEM::CloneMode::Shallow)); x.prol(gf, gc); },
       [&](const VT& f, VT& cc) { GV gf(nullptr, f.clone(LAFEM::CloneMode::Shallow)), gc(nullptr, cc.clone(LAFEM::CloneMode::Shallow)); x.rest(gf, gc); },
-      [&](const VT& f, VT& cc) { GV gf(nullptr, f.clone(LAFEM::CloneMode::Shallow)), gc(nullptr, cc.clone(LAFEM::CloneMode::Shallow)); x.trunc(gf, gc); }, P, R, T, have_values);
+      [&](const VT& f, VT& cc) { GV gf(nullptr, f.clone(LAFEM::CloneMode::Shallow)), gc(nullptr, cc.clone(LAFEM::CloneMode::Shallow)); x.trunc(gf, gc); }, P, R, T, level);
   }
 
   // ------------------------------------------------------------------------------------------ reference cell helpers
@@ -717,8 +719,8 @@ namespace
         { TrD x = src.clone(LAFEM::CloneMode::Weak); check_local(c, key, "clone(Weak)", x, P, R, T); }
         { TrD x = src.clone(LAFEM::CloneMode::Deep); check_local(c, key, "clone(Deep)", x, P, R, T); }
         { TrD x = src.clone(); check_local(c, key, "clone()", x, P, R, T); }
-        { TrD x = src.clone(LAFEM::CloneMode::Layout); check_local(c, key, "clone(Layout)", x, P, R, T, false); }
-        { TrD x = src.clone(LAFEM::CloneMode::Allocate); check_local(c, key, "clone(Allocate)", x, P, R, T, false); }
+        { TrD x = src.clone(LAFEM::CloneMode::Layout); check_local(c, key, "clone(Layout)", x, P, R, T, 1); }
+        { TrD x = src.clone(LAFEM::CloneMode::Allocate); check_local(c, key, "clone(Allocate)", x, P, R, T, 0); }
         // convert to other data/index types, chains, and back
         {
           TrF xf; xf.convert(src); check_local(c, key, "convert(float,u32)", xf, P, R, T);
@@ -870,7 +872,7 @@ int main(int argc, char** argv)
     "FEAT space evaluators and dof mappings are used to evaluate basis functions (checked by C15); the trafo is inverted by an own Newton iteration",
     "meshes are permuted after refinement (the convention GridTransfer's 2-level lookup is written for)",
     "matrix-free prolongation is called for all coarse unit vectors where #coarse dofs * #fine cells * (local dofs)^3/64 <= 4096 (quick) / 16384 (thorough), else for an evenly spaced sub-family (>= 6, incl. first and last), plus zero, dense and coarse-cell supported vectors (first/middle/last coarse cell; all cells of meshes with <= 8 cells in the thorough tier)", "tolerances: exactness 2e-11 absolute on O(1) basis values (local mass matrix inversion), T*P=I 2e-10, matrix-free vs matrix 1e-12 relative, Transfer vs dense product 64 eps relative; transpose is compared bitwise",
-    "Global::Transfer is exercised only serially (no muxer, no gate: clone/convert/move and prol/rest/trunc forwarding); muxed/ghost operation needs MPI (C13)", "LAFEM::Transfer applies no filters (none to check); clone(Layout)/clone(Allocate) have undefined values by contract: only dimensions and layout are compared",
+    "Global::Transfer is exercised only serially (no muxer, no gate: clone/convert/move and prol/rest/trunc forwarding); muxed/ghost operation needs MPI (C13)", "LAFEM::Transfer applies no filters (none to check); clone(Layout) has undefined values and clone(Allocate) undefined values and index arrays by contract: only layout resp. sizes are compared",
     "non-nested spaces (Crouzeix-Raviart, Rannacher-Turek, P2-bubble, parametric discontinuous P1 on non-parallelograms) are excluded"};
 
   static const ElemDesc L1 = {"Lagrange1", 1, false}, L2 = {"Lagrange2", 2, false}, L3 = {"Lagrange3", 3, false},
